@@ -906,6 +906,8 @@ class Lin:
                 return o if o is not None else tN
         if any(path.endswith(s) for s in NONLINEAR_FLOAT) and ("f64" in path or "f32" in path or "core::num" in path or "std::f" in path):
             return T(nonlinear(*sc))
+        if path.startswith("core::num::") and tail.startswith("checked_"):
+            return T("opt", present=None, inner=T(C if all(s in (C, Z) for s in sc) else N))
         if path.startswith("core::num::") or path.startswith("core::cmp::") or path.startswith("core::fmt::") \
                 or path.startswith("core::panicking::") or path.startswith("std::panicking::"):
             return T(C if all(s in (C, Z) for s in sc) else N)
